@@ -6,7 +6,7 @@ import ast
 from ..core import terms as T
 from ..core import asthelp as H
 from ..core.interp import Interp
-from ..core.progdb import AnalysisError
+from ..core.progdb import AnalysisError, walk_no_nested
 from ..core.values import Frame, Obj, PyTuple, to_term
 from ..specs.merge import check_term
 from ..specs import kernel_type as KT
@@ -56,6 +56,7 @@ def run(db, chk) -> None:
     _queue(db, chk, m, TR)
     _bandwidth(db, chk, m, TR)
     _unshift(db, chk)
+    _per_rank_wrappers(db, chk, m)
 
 
 def _queue(db, chk, m, TR):
@@ -291,3 +292,39 @@ def _unshift(db, chk):
     chk.ob(rule, "wrapper reads the columns the series functions produce", got.get("queue", (None,))[0] == "queue_length" and got.get("membw", (None,))[0] == "memory_bw_gbps",
            ta.loc(g), found=got, accepted={"queue": "queue_length", "membw": "memory_bw_gbps"})
     chk.floor(rule, 12)
+
+
+def _per_rank_wrappers(db, chk, m):
+    """'any ranks requested': every requested rank is mapped to ITS series; only ranks without a series are left out"""
+    rule = "C14.R5-every-requested-rank"
+    for q, per_rank in (("TraceCounters.get_queue_length_time_series", "_get_queue_length_time_series_for_rank"), ("TraceCounters.get_memory_bw_time_series", "_get_memory_bw_time_series_for_rank")):
+        f = m.func(q)
+        where = m.loc(f)
+        ok = None
+        found = []
+        comps = [n for n in ast.walk(f) if isinstance(n, ast.DictComp)]
+        for c in comps:
+            found.append(ast.unparse(c)[:140])
+            if len(c.generators) == 1 and not c.generators[0].ifs and H.name_id(c.generators[0].iter) == "ranks" and isinstance(c.generators[0].target, ast.Name):
+                rv = c.generators[0].target.id
+                if H.name_id(c.key) == rv and isinstance(c.value, ast.Call) and isinstance(c.value.func, ast.Attribute) and c.value.func.attr == per_rank and \
+                        [ast.unparse(a) for a in c.value.args] == ["t", rv]:
+                    ok = True
+        loops = [n for n in walk_no_nested(f) if isinstance(n, ast.For) and H.name_id(n.iter) == "ranks"]
+        for lp in loops:
+            found.append(ast.unparse(lp)[:140])
+            jumps = [type(x).__name__ for x in ast.walk(lp) if isinstance(x, (ast.Break, ast.Return))]
+            calls = [c for c in ast.walk(lp) if isinstance(c, ast.Call) and isinstance(c.func, ast.Attribute) and c.func.attr == per_rank]
+            rv = H.name_id(lp.target)
+            if jumps:
+                ok = False
+                found.append(f"loop over ranks is left early: {jumps}")
+            elif len(calls) == 1 and [ast.unparse(a) for a in calls[0].args] == ["t", rv]:
+                stores = [n for n in ast.walk(lp) if isinstance(n, ast.Assign) and isinstance(n.targets[0], ast.Subscript) and H.name_id(n.targets[0].slice) == rv]
+                ok = True if stores else ok
+        chk.ob(rule, f"{q}: each requested rank is mapped to the series of that rank (no early exit from the loop over ranks)", ok, where, found=found, accepted="{rank: per_rank(t, rank) for rank in ranks}  (None results dropped afterwards)",
+               why="`break` on the first rank without data silently drops every rank requested after it")
+        dflt = [v for p_, v, verdict in H.rebinds_of_params(f, ["ranks"])]
+        chk.ob(rule, f"{q}: the rank list is replaced only when none was given", all(v == "default-if-none" for _, _, v in H.rebinds_of_params(f, ["ranks"])), where,
+               found=[x[1] for x in H.rebinds_of_params(f, ["ranks"])], accepted="if ranks is None or len(ranks) == 0: ranks = [0]")
+    chk.floor(rule, 4)
